@@ -362,4 +362,70 @@ PROPS['C16'] = {
     'level_note': 'x64-off runs are excluded (float32 pixel look-ups diverge from healpy, as the library warns)',
 }
 
+CLASSES_ALL = CLASSES_T + ['InverseOperator']
+CLASSES_NOMASK = [c for c in CLASSES_ALL if c != 'PackOperator']
+PROPS['C18'] = {
+    'modes': [(0, 7, 'ops'), (0, 1, 'landscapes'), (1, 7, 'ops'), (1, 1, 'landscapes')],
+    'budget': {'quick': 80, 'thorough': 420},
+    'deciding': {'C18.roundtrip': (300, 3000), 'C18.jit-closure': (300, 3000), 'C18.jit-argument': (250, 2500), 'C18.landscape': (60, 300)},
+    'require_hist': {'quick': {'C18.mode.roundtrip': CLASSES_T, 'C18.mode.jit-closure': CLASSES_T, 'C18.mode.jit-argument': [c for c in CLASSES_T if c != 'PackOperator'],
+                               'C18.landscape.kind': ['healpix', 'frequency', 'grid', 'config']},
+                     'thorough': {'C18.mode.roundtrip': CLASSES_ALL, 'C18.mode.jit-closure': CLASSES_ALL, 'C18.mode.jit-argument': CLASSES_NOMASK,
+                                  'C18.landscape.kind': ['healpix', 'frequency', 'grid', 'config']}},
+    'rule': 'cases = seeded atoms of every concrete class and composites, in both 64-bit modes; each is applied eagerly (under the JAX '
+            'tracer-leak checker), after a jax.tree flatten/unflatten round trip, inside jax.jit(lambda x: op.mv(x)) and through '
+            'equinox.filter_jit with the operator as an argument (skipped for operators holding a boolean mask array); pytree '
+            'structure, shapes, dtypes and values must agree with the eager result; HEALPix, frequency and grid landscapes and the '
+            'configuration state are round-tripped and compared attribute by attribute, with world2index / pixel2index equal after the '
+            'round trip and under jit with the landscape as an argument. case key = (skeleton, structure kind); a class never seen in '
+            'a mode makes the run inconclusive',
+    'assumptions': COMMON_ASSUMPTIONS + ['values compared norm-wise at 1e-6 (float32) / 1e-12 (float64), wider for trigonometric, FFT and solver operators (XLA may fuse differently under jit)'],
+    'technique': 'runtime comparison of execution modes (eager / jit closure / filter_jit argument / unflattened copy) with the JAX tracer-leak checker as a sanitizer',
+    'level_text': 'exploration: every class is observed in every execution mode; results must coincide with eager application.',
+    'level_note': 'sampled operators; jax_check_tracer_leaks is used as a verdict only for leaks raised inside the jitted application of the operator',
+}
+
+PROPS['C19'] = {
+    'modes': [(0, 8, 'history'), (0, 4, 'schedules'), (0, 4, 'threads')],
+    'budget': {'quick': 60, 'thorough': 400},
+    'deciding': {'C19.history': (1500, 15000), 'C19.apply': (20, 200), 'C19.schedule': (3000, 3000), 'C19.threads': (500, 5000), 'C19.contexts': (300, 3000)},
+    'require_hist': {'quick': {'C19.schedules': ['2-threads', '3-threads']}, 'thorough': {'C19.schedules': ['2-threads', '3-threads']}},
+    'exhaustive': {'quick': False, 'thorough': False},
+    'rule': 'cases = (history) random well-nested histories of ENTER / EXIT / EXIT-BY-EXCEPTION / READ / CREATE-INVERSE / APPLY-INVERSE events '
+            'up to depth 4 (quick) / 6, every ENTER with unique recognisable settings, compared after every event with a stack-of-dictionaries '
+            'model and with the default state at the end; applying an inverse (also after its blocks are closed) must fire the callback and use '
+            'the solver max_steps captured at creation (observed inside the lineax Solution handed to the callback); (schedules) ALL 70 '
+            'interleavings of 2 threads x 4 steps and ALL 1680 interleavings of 3 threads x 3 steps driven by a semaphore scheduler, each '
+            'thread and the scheduling context compared with their own model after every step; (threads) 2-5 free-running threads with '
+            'sys.monitoring LINE-event yield injection inside config.py and a 1 microsecond switch interval; contextvars.copy_context() '
+            'children and asyncio tasks interleaved at awaits. case key = event-type sequence / schedule; non-trivial = depth >= 2 or >= 2 threads',
+    'assumptions': ['only fresh Config(...) objects entered where they are built, as the property states (re-entering one Config object is outside it)',
+                    'CPython has no data-race detector: the claim is "held on the interleavings listed", the two small schedule spaces being enumerated completely'],
+    'technique': 'history recording at the client boundary checked online against an executable stack model; exhaustive small-schedule enumeration; sys.monitoring yield injection',
+    'level_text': 'exploration with two exhaustively enumerated schedule spaces (70 + 1680): every event of every history/schedule is compared with the model; effect-level observation of the captured solver through the real lineax solve.',
+    'level_note': 'schedules beyond 3 threads x 3 steps are sampled by free-running threads only',
+}
+
+PROPS['C20'] = {
+    'modes': [(0, 8), (1, 8)],
+    'budget': {'quick': 50, 'thorough': 300},
+    'deciding': {'C20.arith': (800, 8000), 'C20.unary': (400, 4000), 'C20.factory': (400, 4000), 'C20.tree': (400, 4000), 'C20.reject': (300, 3000)},
+    'require_hist': {'quick': {'C20.factory': ['zeros', 'ones', 'full', 'normal', 'uniform', 'structure_for', 'from_stokes', 'from_stokes-kw', 'from_iquv', 'defaults'],
+                               'C20.tree': ['dot', 'dot-complex', 'zeros_like', 'ones_like', 'full_like', 'normal_like', 'uniform_like', 'as_promoted_dtype', 'as_promoted_dtype-struct']},
+                     'thorough': {}},
+    'rule': 'cases = 4 Stokes kinds x shapes (3,), (1,), (2,3), (2,1,2) x float16/float32/float64(x64) x {+,-,*,/,**} forward and reflected '
+            'with Python int/float, NumPy scalars, JAX scalars, 0-d / 1-d / full JAX arrays and same-kind containers (also of another '
+            'dtype): every component must equal the same operation on the bare component (shape, JAX-promoted dtype) and the float64 NumPy '
+            'value with the operand order preserved; other kinds and unknown Stokes strings are rejected; neg/abs/pos/indexing (int, '
+            'array, slice, mask)/ravel/reshape/@ component-wise; factories zeros/ones/full/normal/uniform/structure_for/from_stokes '
+            '(positional, keyword, structures)/from_iquv: kind, shape, dtype (promotion across components), values, bounds, per-component '
+            'independence and reproducibility of draws; furax.tree dot (Hermitian, complex leaves), *_like (treedef, shapes, dtypes, '
+            'values), as_promoted_dtype on arrays and structures, as_structure, is_leaf on lists/tuples/dicts/nested/Stokes pytrees. '
+            'case key = (function, Stokes kind or tree kind, operand type, dtype pair); non-trivial = non-commutative operator or mixed dtypes (arith), all (others)',
+    'assumptions': ['the component-wise reference for dtypes is JAX promotion applied to the bare component and the operand'],
+    'technique': 'runtime comparison of every Stokes-container operation and tree helper with NumPy/JAX applied component by component',
+    'level_text': 'exploration: thousands of (kind, operation, operand type, dtype) combinations compared component by component.',
+    'level_note': 'small shapes; float16 judged at 2e-2',
+}
+
 NOT_APPLICABLE: dict[str, str] = {}
